@@ -154,18 +154,18 @@ class Wrappers:
         o_eval_sum = ig.SumGrader.__dict__['evaluate_sum']
         o_perform = ig.SumGrader.__dict__['perform_summation'].__func__
 
-        def eval_sum_w(self_, summand_str, lower_str, upper_str, summation_var, varscope=None, funcscope=None):
+        def eval_sum_w(self_, summand_str, lower_str, upper_str, *a, **kw):
             slot = {'lower': lower_str, 'upper': upper_str, 'range': 'unreached'}
             rec['sums'].append(slot)
             rec['_cur'] = slot
             try:
-                return o_eval_sum(self_, summand_str, lower_str, upper_str, summation_var, varscope=varscope, funcscope=funcscope)
+                return o_eval_sum(self_, summand_str, lower_str, upper_str, *a, **kw)
             except ig.SummationError as e:
                 if slot['range'] == 'unreached' and 'conflicts with another' not in str(e):
                     slot['range'] = None          # the limits were refused
                 raise
 
-        def perform_w(eval_summand, lower, upper, even_odd, infty_val=1e3):
+        def perform_w(eval_summand, *a, **kw):
             slot = rec['_cur']
             cnt = [0]
 
@@ -173,7 +173,7 @@ class Wrappers:
                 cnt[0] += 1
                 return eval_summand(x)
             try:
-                r = o_perform(counting, lower, upper, even_odd, infty_val)
+                r = o_perform(counting, *a, **kw)
             except ig.SummationError:
                 slot['range'] = None if cnt[0] == 0 else cnt[0]
                 raise
@@ -420,6 +420,8 @@ class Gen:
                 extra.append('+0*(%s)' % cfg['forbidden_strings'][0])
             A = A + ''.join(extra)
         author_uses = A != H
+        if rng.random() < 0.3:          # an answer worth partial credit: the raw verdict is 'partial'
+            A = ({'expect': A, 'grade_decimal': 0.5},)
         honest = self.add(cls, cfg, A, H, 'honest', 'credit', author_uses_restricted=author_uses)
         if omit is not None:
             self.add(cls, cfg, A, spaced(rng, omit), 'required', 'invalid', honest=honest, twin=honest)
@@ -470,6 +472,7 @@ class Gen:
         cfg['instructor_vars'] = rng.choice([['z'], ['z', 'w'], ['w']])
         cfg['even_odd'] = rng.choice([0, 0, 1, 2])
         cfg['samples'] = rng.choice([1, 2])
+        cfg['tolerance'] = 1e-9            # the default 1e-12 (absolute) is too close to the rounding of  +T-T
         fields = ['lower', 'upper', 'summand', 'summation_variable']
         author = dict(zip(fields, rng.choice([('1', '4', 'a*n^2', 'n'), ('0', '5', 'n+a', 'n'), ('2', '6', 'a*(n+1)', 'n'),
                                               ('1', '5', 'uf(n)*a', 'n')])))
@@ -490,7 +493,8 @@ class Gen:
         rng.shuffle(terms)
         for kind, T, Tok, expect in terms[:n_cheats]:
             place = rng.choice([k for k in entered if k != 'summation_variable'])
-            tmpl, _ = rng.choice(NEUTRAL[:3] + NEUTRAL[4:8])
+            # limits must stay exact integers in floating point: no  +T-T  there
+            tmpl, _ = rng.choice(NEUTRAL[:3] + NEUTRAL[4:8]) if place == 'summand' else rng.choice([NEUTRAL[0]] + NEUTRAL[4:8])
             twin = self.add('Sum', cfg, author, student(**dict(honest_over, **{place: spaced(rng, tmpl.format(H=hs[place], T=Tok))})),
                             'control', 'credit', honest=honest, entered=entered)
             self.add('Sum', cfg, author, student(**dict(honest_over, **{place: spaced(rng, tmpl.format(H=hs[place], T=T))})),
@@ -539,8 +543,13 @@ class Gen:
         terms += [('sibling', 'sibling_%d' % k, 'y', 'undefined') for k in range(1, n + 2)]
         terms += [('sibling', 'sibling_%d' % rng.randint(1, n), 'y', 'undefined') for _ in range(2)]
         rng.shuffle(terms)
-        for kind, T, Tok, expect in terms[:n_cheats]:
-            box = rng.randrange(n)
+        # always: the box whose answer is built from a sibling mentions that sibling itself
+        import re as _re
+        refs = [(i, k) for i, a in enumerate(answers) for k in _re.findall(r'sibling_\d+', a)]
+        forced = [('sibling', k, 'y', 'undefined', i) for i, k in refs[:2]]
+        for item in forced + [t + (None,) for t in terms[:n_cheats]]:
+            kind, T, Tok, expect, forced_box = item
+            box = rng.randrange(n) if forced_box is None else forced_box
             tmpl, _ = rng.choice(NEUTRAL)
 
             def with_box(t):
@@ -580,7 +589,7 @@ def generate(seed, tier, escalate):
         fam = {'Formula': 260, 'Numerical': 90, 'Matrix': 130, 'Sum': 170, 'List': 90}
         per = 8
     elif escalate:
-        fam = {'Formula': 70, 'Numerical': 24, 'Matrix': 36, 'Sum': 44, 'List': 22}
+        fam = {'Formula': 50, 'Numerical': 16, 'Matrix': 24, 'Sum': 30, 'List': 14}
         per = 6
     else:
         fam = {'Formula': 30, 'Numerical': 10, 'Matrix': 14, 'Sum': 18, 'List': 8}
@@ -653,6 +662,13 @@ def cfg_term(cfg, obs, dflt_index):
 FIELDS = ['lower', 'upper', 'summand', 'summation_variable']
 
 
+def expect_of(answers):
+    """the comparer parameter of a single-alternative answer"""
+    if isinstance(answers, (tuple, list)):
+        answers = answers[0]
+    return answers['expect'] if isinstance(answers, dict) else answers
+
+
 def case_term(spec, obs, dflt_index):
     cfg = cfg_term(spec['cfg'], obs, dflt_index)
     perm = namesl([p for p in obs['permitted'] if isinstance(p, str)])
@@ -660,7 +676,7 @@ def case_term(spec, obs, dflt_index):
     samples, raws = obs['samples'], obs['raw']
     if spec['cls'] in ('Formula', 'Numerical', 'Matrix'):
         fobs = '(mkFObs %s %s)' % (rawl(raws[0] if raws else None), optnames(samples[0] if samples else None))
-        return '(CF (mkF %s %s %s %s %s %s))' % (cfg, namesl([spec['answers']]), strl(spec['input']), fobs, perm, out)
+        return '(CF (mkF %s %s %s %s %s %s))' % (cfg, namesl([expect_of(spec['answers'])]), strl(spec['input']), fobs, perm, out)
     if spec['cls'] == 'List':
         boxes = []
         for i, (ans, inp) in enumerate(zip(spec['answers'], spec['input'])):
@@ -674,12 +690,14 @@ def case_term(spec, obs, dflt_index):
     au = '(mkSum %s)' % ' '.join(strl(author[k]) for k in FIELDS)
     st = '(mkSum %s)' % ' '.join(strl(stud.get(k, '')) for k in FIELDS)
     ranges = []
-    seen = set()
+    table = {}
     for lo, hi, rg in obs['sums']:
-        if rg == 'unreached' or (lo, hi) in seen:
+        if rg == 'unreached':
             continue
-        seen.add((lo, hi))
-        ranges.append('(%s, %s, %s)' % (strl(lo), strl(hi), 'None' if rg is None else '(Some %d%%nat)' % min(rg, 3)))
+        # the model runs one sample: limits refused in ANY sample of the implementation count as refused
+        table[(lo, hi)] = None if (rg is None or table.get((lo, hi), 0) is None) else min(rg, 3)
+    for (lo, hi), rg in table.items():
+        ranges.append('(%s, %s, %s)' % (strl(lo), strl(hi), 'None' if rg is None else '(Some %d%%nat)' % rg))
     fobs = '(mkFObs %s %s)' % (rawl(raws[0] if raws else None), optnames(samples[0] if samples else None))
     return '(CS (mkS %s %s %s %s [%s] %s %s %s))' % (cfg, en, au, st, ';'.join(ranges), fobs, perm, out)
 
@@ -877,6 +895,8 @@ def judge(spec, obs, by_id):
     if not credited(h) or not credited(t):
         return None                       # the honest part does not earn credit here: nothing is claimed
     if obs['code'] in ('result', 'list'):
+        if spec['expect'] == 'invalid' and not any(g > 0 for g in obs.get('grades', [])):
+            return None       # graded wrong (the validators only run on credited answers): not correct, not partially correct
         return ('cheating formula whose honest part (and harmless twin) earns credit was not refused with an error: '
                 'returned %r with grades %r' % (obs['detail'], obs.get('grades')))
     want = UNDEFINED_CLASSES if spec['expect'] == 'undefined' else ALLOWED_CLASSES
@@ -933,6 +953,20 @@ def run(ctx):
         elif spec['kind'] == 'honest' and not credited(obs):
             dist['honest_not_credited'] = dist.get('honest_not_credited', 0) + 1
     res.distribution = dist
+    every = [{'id': k} for k in (K_SIBLING, K_EMPTY, K_AUTHOR, K_FORMAT)]
+    buckets = {}
+    for w in res.witnesses:
+        buckets.setdefault(classify_known(w, every) or '', []).append(w)
+    ordered = buckets.pop('', [])
+    while any(buckets.values()):
+        for k in sorted(buckets):
+            if buckets[k]:
+                ordered.append(buckets[k].pop(0))
+    res.witnesses = ordered
+    dist['witnesses_by_finding'] = {}
+    for w in ordered:
+        k = classify_known(w, every) or 'UNCLASSIFIED'
+        dist['witnesses_by_finding'][k] = dist['witnesses_by_finding'].get(k, 0) + 1
 
     # ---- correspondence: the model evaluated inside Coq on the same inputs and oracle answers
     tables, terms, metas = [], [], []
@@ -1065,11 +1099,13 @@ LEVEL_TEXT = ('Theorems for every configuration, every formula string / parse tr
               'every iteration; a clean formula is never refused because of what the author\'s answer contains. Stated on '
               'definitions regenerated from the source where the code is declarative, on a hand-written model (over the C03 '
               'parser/evaluator model) tied by differential correspondence otherwise.')
-LEVEL_NOTE = ('Three places where the faithful model and the real code violate the full statement are kept as refuted examples and '
-              'impl-level witnesses: an earlier list box that references the offending box reports ConfigError; SumGrader never '
-              'scope-checks the summand over an empty index range; SumGrader validates the author\'s own non-entered fields as '
-              'student input. IntegralGrader (needs scipy) is covered by the regenerated loop order only. Numeric evaluation and '
-              'comparison are oracles; trusted: Coq kernel, translate/restrict.py, harness/props/c09.py; no axioms.')
+LEVEL_NOTE = ('Four places where the faithful model and the real code violate the full statement are kept as refuted examples and '
+              'impl-level witnesses (found on every run): an earlier list box that references the offending box reports '
+              'ConfigError; SumGrader never scope-checks the summand over an empty index range; SumGrader validates the '
+              'author\'s own non-entered fields as student input; check_scope\'s "did you mean" suggestion breaks str.format '
+              'when the suggested name contains braces, so the generic error replaces UndefinedVariable. IntegralGrader (needs '
+              'scipy) is covered by the regenerated loop order only. Numeric evaluation and comparison are oracles; trusted: '
+              'Coq kernel, translate/restrict.py, harness/props/c09.py; no axioms.')
 TECHNIQUE = ('Coq proof (induction over trees, lists of boxes and sample iterations; set/substring specifications) + '
              'source-to-Gallina translator + vm_compute correspondence running the model\'s own check functions')
 DESIGN_REF = 'DESIGN.md section 3, C09'
